@@ -1,6 +1,7 @@
 import JunoModel.Generated.Arith
 import JunoModel.C02.ModelStore
 import JunoModel.C07.ModelCasm
+import JunoModel.C03.Model
 /-!
 C02 / C07 tie: `ClassCasmHashMetadata.IsMigrated` and `IsMigratedAt` of core/class.go, REGENERATED from the
 source on every check run (the receiver's `migratedAt` field becomes a parameter), are the predicates of the two
@@ -41,5 +42,40 @@ theorem isMigratedAt_spec (at_ h : UInt64) :
     have : at_.toNat ≠ 0 := fun e => a (UInt64.toNat_inj.mp (by simpa using e))
     have h0 : (0 : UInt64).toNat = 0 := rfl
     omega
+
+/-! ## C03: the history model's record (`Juno.C03.CasmMeta`, naturals) -/
+
+/-- `CasmHashAt(n)` of the C03 model, written with the regenerated tests: not found below the declaration height
+(`c.declaredAt > height`), else the V2 hash iff declared with V2 or migrated at `n` (`IsMigratedAt`). -/
+theorem c03_at_eq (mt : Juno.C03.CasmMeta) (d m n : UInt64) (hd : mt.declaredAt = d.toNat) (hm : mt.migratedAt = m.toNat) :
+    mt.at n.toNat =
+      if casmNotYetDeclared d n then .notfound
+      else match mt.v1 with
+        | none => .ok mt.v2
+        | some v1 => if casmIsMigratedAt n m then .ok mt.v2 else .ok v1 := by
+  have h1 : casmNotYetDeclared d n = decide (d.toNat > n.toNat) := by
+    simp [casmNotYetDeclared, UInt64.lt_iff_toNat_lt]
+  have h2 : casmIsMigratedAt n m = (decide (m.toNat > 0) && decide (m.toNat ≤ n.toNat)) := by
+    simp only [casmIsMigratedAt, Id.run, pure, gt_iff_lt, UInt64.lt_iff_toNat_lt, UInt64.le_iff_toNat_le]
+    rfl
+  unfold Juno.C03.CasmMeta.at
+  rw [h1, h2, hd, hm]
+  by_cases hgt : d.toNat > n.toNat
+  · simp [hgt]
+  · simp only [hgt, if_false, decide_false, Bool.false_eq_true]
+    cases mt.v1 <;> rfl
+
+/-- The refusal of `Migrate` as `metaStore` has it: declared with V2, or the migration height is not after the
+declaration (`migratedAt <= c.declaredAt`), or already migrated. -/
+theorem c03_migrate_refusal_eq (mt : Juno.C03.CasmMeta) (b d m : UInt64) (hd : mt.declaredAt = d.toNat)
+    (hm : mt.migratedAt = m.toNat) :
+    (mt.v1.isNone || decide (b.toNat ≤ mt.declaredAt) || decide (mt.migratedAt > 0)) =
+      (mt.v1.isNone || casmMigrateNotAfterDeclaration b d || casmIsMigrated m) := by
+  have h1 : casmMigrateNotAfterDeclaration b d = decide (b.toNat ≤ d.toNat) := by
+    simp [casmMigrateNotAfterDeclaration, UInt64.le_iff_toNat_le]
+  have h2 : casmIsMigrated m = decide (m.toNat > 0) := by
+    simp only [casmIsMigrated, Id.run, pure, gt_iff_lt, UInt64.lt_iff_toNat_lt]
+    rfl
+  rw [h1, h2, hd, hm]
 
 end Juno.Tie.Casm
